@@ -92,6 +92,15 @@ func Digest(r io.Reader, hashFunc crypto.Hash) (*CabinetDigest, error) {
 	} else if cab.Header.Flags&^FlagReservePresent != 0 {
 		return nil, errors.New("unsupported flags in cabinet file")
 	}
+	// the header is rewritten by offset while the rest is digested in sequence, which only agrees when the folder
+	// table ends where the files begin and the files lie inside the cabinet
+	hdrEnd := int64(binary.Size(cab.Header)) + int64(cab.Header.NumFolders)*int64(binary.Size(FolderHeader{}))
+	if cab.Header.Flags&FlagReservePresent != 0 {
+		hdrEnd += reserveHeaderSize + int64(cab.ReserveHeader.HeaderSize)
+	}
+	if int64(cab.Header.OffsetFiles) != hdrEnd || cab.Header.TotalSize < cab.Header.OffsetFiles {
+		return nil, errors.New("unsupported layout of cabinet header")
+	}
 	// add space for signature header, or remove excess padding
 	add32(&outHeader.TotalSize, addOffset)
 	add32(&outHeader.OffsetFiles, addOffset)
